@@ -4,6 +4,7 @@ import (
 	"fmt"
 	"strconv"
 	"strings"
+	"time"
 
 	"github.com/olric-data/olric/internal/verif/core"
 	"github.com/olric-data/olric/internal/verif/sched"
@@ -84,7 +85,10 @@ func c07Programs(tier string) []*schedmc.Program {
 	for _, cf := range cfgs {
 		for _, T := range threadCounts {
 			for _, ents := range multisets(entriesFor(cf.n), T) {
-				for _, kind := range []string{"incr", "incrdecr", "float", "getput"} {
+				for _, kind := range []string{"incr", "incrdecr", "float", "getput", "incr-expired"} {
+					if kind == "incr-expired" && T > 2 {
+						continue
+					}
 					ents, kind, cf := ents, kind, cf
 					p := &schedmc.Program{
 						Name: fmt.Sprintf("%s N=%d R=%d entries=%s", kind, cf.n, cf.r, strings.Join(ents, "+")),
@@ -99,13 +103,19 @@ func c07Programs(tier string) []*schedmc.Program {
 							kv.Incr(p.Key, 10)
 						case "float":
 							kv.IncrByFloat(p.Key, 10)
+						case "incr-expired":
+							// the counter exists with an expiry that has run out (nothing has evicted it):
+							// it counts as absent, the callers start from 0
+							kv.Incr(p.Key, 100)
+							kv.Expire(p.Key, 5*time.Millisecond)
+							sched.AdvanceNS(int64(10 * time.Millisecond))
 						}
 					}
 					for i, e := range ents {
 						i := i
 						th := schedmc.Thread{Entry: e}
 						switch kind {
-						case "incr":
+						case "incr", "incr-expired":
 							th.Body = func(e *schedmc.Env) {
 								e.H.Do(e.Tid, "incr", fmt.Sprint(deltas[i]), deltas[i], func() simcluster.Res { return e.KV.Incr(e.Key, int(deltas[i])) })
 							}
@@ -133,6 +143,8 @@ func c07Programs(tier string) []*schedmc.Program {
 					p.Judge = func(cl *simcluster.Cluster, h *schedmc.Hist, x *sched.Exec) (string, string) {
 						var m schedmc.Model
 						switch kind {
+						case "incr-expired":
+							m = counterModel{0}
 						case "incr", "incrdecr":
 							m = counterModel{10}
 						case "float":
